@@ -80,18 +80,20 @@ def _assigned(stmts):
     return out
 
 
-def _inlinable(prog, f, call, stack, keep=()):
+def _inlinable(prog, f, call, stack, keep=(), allow_loops=False):
     h = prog.resolve_callable(f, f.module, call.func)
     if not isinstance(h, Func) or h.is_lambda or h.parent is not None or h in stack or h is f or h.name in keep:
         return None
     if not h.name.startswith('_'):
         return None
     body = _doc_stripped(_unrolled(h).body)
-    if not body or len(body) > MAX_STMTS:
+    if not body or len(body) > (MAX_STMTS if not allow_loops else 3 * MAX_STMTS):
         return None
     root = _unrolled(h)
     for x in ast.walk(root):
-        if isinstance(x, (ast.Yield, ast.YieldFrom, ast.Global, ast.Nonlocal, ast.Try, ast.With, ast.For, ast.While)):
+        if isinstance(x, (ast.Yield, ast.YieldFrom, ast.Global, ast.Nonlocal, ast.Try, ast.With)):
+            return None
+        if isinstance(x, (ast.For, ast.While)) and not allow_loops:
             return None      # only straight-line glue is inlined: loops are algorithms with their own rules
         if isinstance(x, (ast.ListComp, ast.DictComp, ast.SetComp, ast.GeneratorExp)):
             # a comprehension is carried along when its variables cannot be confused with the helper's names
@@ -157,8 +159,9 @@ def _stmt_helper(h):
 
 
 class _Inliner:
-    def __init__(self, prog, f, depth, keep=()):
+    def __init__(self, prog, f, depth, keep=(), allow_loops=False):
         self.prog, self.f, self.depth, self.keep = prog, f, depth, tuple(keep)
+        self.allow_loops = allow_loops
         self.taken = set(f.params) | _assigned(f.node.body) | {n.id for n in ast.walk(f.node) if isinstance(n, ast.Name)}
         self.count = 0
 
@@ -171,7 +174,7 @@ class _Inliner:
                 self.generic_visit(n)
                 if depth <= 0:
                     return n
-                h = _inlinable(me.prog, me.f, n, stack, me.keep)
+                h = _inlinable(me.prog, me.f, n, stack, me.keep, me.allow_loops)
                 if h is None:
                     return n
                 ex = _expr_helper(h)
@@ -218,7 +221,7 @@ class _Inliner:
             top = s.value
             for n in ast.walk(top):
                 if isinstance(n, ast.Call) and n is not top:
-                    h = _inlinable(self.prog, self.f, n, stack, self.keep)
+                    h = _inlinable(self.prog, self.f, n, stack, self.keep, self.allow_loops)
                     if h is not None and _expr_helper(h) is None and _stmt_helper(h)[1] is not None and _bind(h, n) is not None:
                         nm = self.fresh('tmp', h)
                         self.taken.add(nm)
@@ -243,7 +246,7 @@ class _Inliner:
                         pre.value = copy.deepcopy(n)
                         return self.stmt(pre, stack, depth) + self.stmt(s2, stack, depth)
         if call is not None and depth > 0:
-            h = _inlinable(self.prog, self.f, call, stack, self.keep)
+            h = _inlinable(self.prog, self.f, call, stack, self.keep, self.allow_loops)
             if h is not None and _expr_helper(h) is None:
                 body, ret = _stmt_helper(h)
                 b = _bind(h, call)
@@ -330,14 +333,15 @@ class _Inliner:
 _CACHE = {}
 
 
-def inline_view(prog, f, depth=2, keep=()):
-    """Func like f with small private helpers inlined (f itself when nothing was inlined)"""
-    key = (id(prog), id(f), depth, tuple(keep))
+def inline_view(prog, f, depth=2, keep=(), allow_loops=False):
+    """Func like f with small private helpers inlined (f itself when nothing was inlined); allow_loops: phases of a
+    Python-level routine (helpers that contain loops, a single trailing return) are inlined too"""
+    key = (id(prog), id(f), depth, tuple(keep), allow_loops)
     if key in _CACHE:
         return _CACHE[key]
     res = f
     if not f.is_lambda:
-        inl = _Inliner(prog, f, depth, keep)
+        inl = _Inliner(prog, f, depth, keep, allow_loops)
         body = inl.block(list(f.node.body), [f], depth)
         if inl.count:
             node = copy.copy(f.node)
